@@ -895,8 +895,14 @@ pub fn progress(trace: &[Value]) -> Vec<Value> {
                     c["ifb"].as_i64().unwrap_or(0) > 0 && c["ifae"].as_i64().unwrap_or(0) == 0
                         && pad(if c["n"] == 0 { "server" } else { "client" })
                 }));
+                // a handshaking side that still owes handshake CRYPTO data, has nothing of the
+                // handshake in flight, no timer, and only (unacknowledgeable) 1-RTT packets in flight
+                let starved = e["conns"].as_array().is_some_and(|a| a.iter().any(|c| {
+                    c["st"] == 0 && c["pcrypto"].as_i64().unwrap_or(0) > 0 && c["hsout"] == 0
+                        && c["tm0"] == -1 && c["tm6"] == -1 && c["ifae"].as_i64().unwrap_or(0) > 0
+                }));
                 out.push(json!({"ev":"End","t":e["t"],"done":e["apps_done"],"steps":e["steps"],"lost":lost,
-                    "stuckpad":stuck}));
+                    "stuckpad":stuck,"hsstarved":starved}));
             }
             _ => {}
         }
